@@ -184,6 +184,18 @@ class Probe(SourceProxy):
         global_probes.remove(self)
         self._uninstall_tooling()
 
+    def __exit__(self, exc_type=None, exc=None, tb=None):
+        if self._root is not self:
+            return super().__exit__(exc_type, exc, tb)
+        # Complete the stream, but deactivate even if a subscriber raises on
+        # completion (e.g. min() over no events)
+        try:
+            for obs in list(self._observers):
+                obs.on_completed()
+        finally:
+            self._observers.clear()
+            self._exit()
+
     def activate(self):
         """Activate this probe."""
         self.__enter__()
